@@ -301,8 +301,22 @@ class Runner:
                 self._report(recipe, v)
                 excluded.add(v.signature)
                 per_round = max(50, n_examples // 2)
-            except hypothesis.errors.Flaky as e:     # same recipe, different result: harness problem
-                raise HarnessError('flaky case: %s' % e)
+            except hypothesis.errors.Flaky as e:
+                # same recipe, different result.  If the recorded failing recipe fails again when it is simply re-run,
+                # the violation is real (the changed code is non-deterministic); otherwise it is a harness problem.
+                last = state.get('last')
+                again = False
+                if last is not None:
+                    for _ in range(5):
+                        o = self.prop.run_case(last[0])
+                        if any(v.signature == last[1].signature for v in o.violations):
+                            again = True
+                            break
+                if not again:
+                    raise HarnessError('flaky case: %s' % str(e)[:300])
+                self._report(last[0], last[1])
+                excluded.add(last[1].signature)
+                per_round = max(50, n_examples // 2)
 
     # -- whole run ----------------------------------------------------------------------------
     def run_single(self, n_examples=None, do_replays=True, do_enum=True, shard=0, nshards=1):
@@ -443,3 +457,11 @@ def guarded_main(fn):
         traceback.print_exc()
         print('HARNESS-ERROR unexpected exception in harness')
         return 2
+
+
+def fd(mapping):
+    """Like st.fixed_dictionaries, without its internal shuffle: Hypothesis' BytestringProvider (the fuzz_one_input
+    bridge used by the atheris tier) cannot draw the bounded integers that shuffle needs, so every buffer is rejected."""
+    from hypothesis import strategies as st
+    keys = list(mapping.keys())
+    return st.tuples(*[mapping[k] for k in keys]).map(lambda t: dict(zip(keys, t)))
